@@ -167,17 +167,17 @@ def build():
     NAV_PROPS = {"C06": "*", "C08": "*", "C03": ["B/nav-type", "B/nav-name-span", "B/nav-integer", "B/nav-boolean",
                  "B/nav-string-span", "B/nav-bytes-span", "B/nav-double-bits"], "C09": ["B/nav-no-error"]}
 
-    def nav(seq, root, n, tier, props=None, doc=None, extra_defs=(), md=3):
-        defs = ["VC_N=%d" % n, "VC_ROOT_ARRAY=%d" % root, "VC_MD=%d" % md] + ["VC_S%d=%d" % (i, OPS[c]) for i, c in enumerate(seq)]
+    def nav(seq, root, n, tier, props=None, doc=None, extra_defs=(), md=3, pinned_regular=False):
+        defs = ["VC_N=%d" % n, "VC_ROOT_ARRAY=%d" % root, "VC_MD=%d" % md] + ["VC_OP%d=%d" % (i, OPS[c]) for i, c in enumerate(seq)]
         if doc:
             defs.append("VC_DOC=" + ",".join("0x%02x" % b for b in doc))
         defs += list(extra_defs)
         pr = dict(NAV_PROPS)
         if props:
             pr.update(props)
-        if doc:
+        if doc and not pinned_regular:
             pr = {"C06": "*"}      # pinned shape of a listed known finding: reported under its own property only
-        nm = "nav/%s/%s/N=%d%s" % ("oa"[root], seq, n, "/pinned" if doc else "")
+        nm = "nav/%s/%s/N=%d%s" % ("oa"[root], seq, n, ("/pinned-" + bytes(doc).hex()[:40]) if pinned_regular else ("/pinned" if doc else ""))
         unw = max(9, n + 2)
         heavy = any(c in seq for c in "RFGH")
         uw = ["--unwind", str(unw), "--unwindset", "binson_parser_field_with_length.0:%d,ref_field.0:%d" % (n // 3 + 2, n // 3 + 2)]
@@ -201,6 +201,16 @@ def build():
                     ("ENAaN", 1, 8, None), ("ENRNRN", 1, 8, RW), ("ENONRNo", 0, 9, RW)]
     for seq, root, n, pr in thorough_nav:
         nav(seq, root, n, "thorough", pr)
+    # pinned documents x traversal strategies (sequences computed with the reference cursor, see vlib/pinned.py)
+    from .pinned import PINNED, PINNED_LOOKUPS
+    for k, (root, hexdoc, seq) in enumerate(PINNED):
+        doc = list(bytes.fromhex(hexdoc))
+        extra = {"C11": "*"} if "R" in seq else None
+        nav(seq, root, len(doc), "quick", extra, doc=doc, pinned_regular=True, md=4)
+    for k, (root, hexdoc, seq, n0, n1) in enumerate(PINNED_LOOKUPS):
+        doc = list(bytes.fromhex(hexdoc))
+        nav(seq, root, len(doc), "quick", {"C07": "*"}, doc=doc, pinned_regular=True, md=4,
+            extra_defs=["VC_NM0=0x%02x" % n0, "VC_NM1=0x%02x" % n1])
     # pinned shapes of the listed known findings (concrete documents)
     nav("ENAaN", 1, 10, "quick", doc=[0x42, 0x42, 0x40, 0x41, 0x43, 0x40, 0x41, 0x10, 0x05, 0x43])     # [[{}],{},5]
     nav("ENa", 1, 8, "quick", doc=[0x42, 0x42, 0x10, 0x01, 0x43, 0x42, 0x43, 0x43])                    # [[1],[]]
